@@ -16,7 +16,9 @@ RULE = ("every level spelling (all documented names in three letter cases) and i
         "FileHandlerFactory, the produced logger (name, level, propagate, handlers in order, handler levels, formatter output) "
         "and idempotence of the factory; format strings enumerated over field names x conversion types x escapes for the four "
         "styles with and without arbitrary-fields: accepted at load => the factory builds the formatter and an ordinary record "
-        "formats without raising; sequences of up to 6 operations {call factory, reopen, close all, drop handler reference} "
+        "formats without raising, also when the same style and format occurs in several handler sections of the process with "
+        "arbitrary-fields on in some and off in others (successive loads, handlers of one logger, loggers of one configuration; "
+        "every order with an 'off' section after an 'on' section); sequences of up to 6 operations {call factory, reopen, close all, drop handler reference} "
         "against the registry model, the handlers created with and without delay and records emitted in between (a delayed "
         "handler opens its file at its first record); configured logfile sections {plain, size, timed rotation} x delay x "
         "encoding through their factories: records, files moved away, reopenFiles(), records, closeFiles() - every live handler "
@@ -92,6 +94,99 @@ def _value_dependent_shape(style, fmt):
     return ""
 
 
+def _level_expected(s):
+    """the documented verdict for a level spelling: the name table (case-insensitive), integers 0..50; everything else is refused"""
+    sl = s.lower()
+    if sl in DOC:
+        return ["ok", DOC[sl]]
+    try:
+        v = int(sl)
+    except ValueError:
+        return ["err", "ValueError"]
+    return ["ok", v] if 0 <= v <= 50 else ["err", "ValueError"]
+
+
+def _configured_levels(ctx, rng, tmp, converted_before=None):
+    """level spellings through the configuration, repeatedly: logger / eventlog sections whose own level, resp. whose logfile
+    handler's level, is spelled as a documented name (three letter cases), an integer -2..52 or a malformed number; every
+    (spelling, position) is loaded several times in this process, the repetitions interleaved with the other spellings (an
+    application that configures the same level for several loggers and handlers, or reads its configuration again).  Stated
+    directly: EVERY load is accepted iff the spelling is a documented name or an integer 0..50, and the logger / handler built by
+    the factory of an accepted section has exactly that number as its level"""
+    ints = [str(i) for i in range(-2, 53)]
+    names = [f(n) for n in LEVELS for f in (str.lower, str.upper, str.capitalize)]
+    odd = ["0x10", "1_0", "+5", "05", "5.0", "\u0661\u0662", "-0", "lvl", "-51", "100", "050", "51.0"]
+    if not ctx.thorough():
+        edge = ["-2", "-1", "0", "1", "49", "50", "51", "52"]
+        ints = edge + rng.sample([i for i in ints if i not in edge], 16)
+        names = rng.sample(names, 16)
+    spellings = ints + names + odd
+    jobs = [(sp, pos) for sp in spellings for pos in ("logger", "handler", "eventlog", "eventlog-handler")]
+    if not ctx.thorough():
+        jobs = [j for j in jobs if j[1] in ("logger", "handler") or rng.random() < 0.5]
+    reps = 3 if ctx.thorough() else 2
+    order = [(j, 1) for j in jobs]
+    for k in range(2, reps + 2):
+        again = list(jobs)
+        rng.shuffle(again)
+        order += [(j, k) for j in again]
+    earlier = {}
+    root = logging.getLogger()
+    n_i = 0
+    for (sp, pos), nth in order:
+        n_i += 1
+        name = "zcv.c20.cl%d" % n_i
+        ev = pos.startswith("eventlog")
+        own, hl = (sp, "warn") if pos in ("logger", "eventlog") else ("info", sp)
+        lines = ["<eventlog>"] if ev else ["<logger>", "  name " + name]
+        lines += ["  level " + own, "  <logfile>", "    path STDOUT", "    level " + hl, "  </logfile>", "</eventlog>" if ev else "</logger>"]
+        text = "\n".join(lines) + "\n"
+        exp = _level_expected(sp)
+        r = load(text)
+        ctx.evaluations += 1
+        ctx.nontriv(("configured-level", sp, pos, nth))
+        ctx.count("configured-level:%s:%s" % ("in-range-or-name" if exp[0] == "ok" else "out-of-range-or-malformed", "accepted" if r[0] == "ok" else "refused"))
+        if nth > 1:
+            ctx.count("configured-level:repeated-load")
+        hist = earlier.setdefault((sp, pos), [])
+        by_spelling = earlier.setdefault(sp, [])
+        replay = {"text": text, "level_spelling": sp, "position": pos, "load_number_of_this_section_in_this_process": nth,
+                  "earlier_verdicts_for_this_section": list(hist), "earlier_loads_with_this_spelling_in_any_position": list(by_spelling),
+                  "results_of_logging_level_called_directly_on_this_spelling_earlier_in_this_process": list((converted_before or {}).get(sp, [])),
+                  "expected": exp}
+        hist.append("accepted" if r[0] == "ok" else "refused")
+        by_spelling.append("%s: %s" % (pos, hist[-1]))
+        if r[0] != "ok":
+            if exp[0] == "ok":
+                ctx.violate("%s level %r refused (%s) at load number %d of this section; it is documented to mean %d" % (pos, sp, r[1], nth, exp[1]),
+                            replay, signature="C20:valid-rejected")
+            continue
+        root_before, root_level = len(root.handlers), root.level
+        try:
+            logger = (r[1].eventlog if ev else r[1].loggers[0])()
+            hs = list(logger.handlers)[root_before if ev else 0:]
+            got = logger.level if pos in ("logger", "eventlog") else (hs[0].level if hs else None)
+        except Exception as e:
+            got = "factory raised " + type(e).__name__
+            hs = []
+        replay["resulting_numeric_level"] = got
+        if exp[0] != "ok":
+            ctx.violate("%s level %r accepted at load number %d of this section in this process (earlier loads with this spelling: %r; logging_level() "
+                        "called directly on it before: %d times), the %s gets level %r; only the documented names and integers 0..50 are levels"
+                        % (pos, sp, nth, replay["earlier_loads_with_this_spelling_in_any_position"], len((converted_before or {}).get(sp, [])),
+                           "logger" if pos in ("logger", "eventlog") else "handler", got),
+                        replay, signature="C20:level:configured-accepted-outside-range")
+        elif got != exp[1]:
+            ctx.violate("%s level %r gives numeric level %r, documented: %d" % (pos, sp, got, exp[1]), replay, signature="C20:setup:level")
+        if ev:
+            for h in hs:
+                root.removeHandler(h)
+                h.close()
+            root.setLevel(root_level)
+        else:
+            reset_logging([name])
+
+
 def run(ctx):
     import ZConfig
     from ZConfig.components.logger import loghandler
@@ -108,32 +203,42 @@ def run(ctx):
             spell += [n, n.upper(), n.capitalize(), n + " ", " " + n, n + "x"]
         spell += [str(i) for i in range(-2, 53)] + ["", "0x10", "1_0", "+5", "05", "5.0", "١٢", "5 0", "-0", "lvl"]
         ans = core.driver_batch([[Atom("loglevel"), s] for s in spell]) if ctx.driver_ok else [None] * len(spell)
-        for s, a in zip(spell, ans):
+        # every spelling is converted several times in this process (an application configures the same level for many
+        # loggers and handlers, and reads its configuration again): the first pass in order, a second pass in the same order,
+        # further passes shuffled.  The verdict for a spelling is the documented one EVERY time, whatever was converted before
+        model_of = dict(zip(spell, ans))
+        order = [(s, 1) for s in spell] + [(s, 2) for s in spell]
+        for p_ in range(3, 6 if ctx.thorough() else 4):
+            again = list(spell)
+            rng.shuffle(again)
+            order += [(s, p_) for s in again]
+        earlier = {}
+        for s, nth in order:
+            a = model_of[s]
             ctx.evaluations += 1
-            ctx.nontriv(("level", s))
+            ctx.nontriv(("level", s, nth))
             try:
                 r = ["ok", logging_level(s)]
             except ValueError:
                 r = ["err", "ValueError"]
             except Exception as e:
                 r = ["exc", type(e).__name__]
-            exp = None
-            sl = s.lower()
-            if sl in DOC:
-                exp = ["ok", DOC[sl]]
-            else:
-                try:
-                    v = int(sl)
-                    exp = ["ok", v] if 0 <= v <= 50 else ["err", "ValueError"]
-                except ValueError:
-                    exp = ["err", "ValueError"]
+            exp = _level_expected(s)
+            if nth > 1:
+                ctx.count("level:repeated-conversion")
+                if exp[0] == "err":
+                    ctx.count("level:repeated-conversion:out-of-range-or-malformed")
             if r != exp:
-                ctx.violate("logging_level(%r) = %r, documented: %r" % (s, r, exp), {"value": s, "impl": r, "expected": exp},
-                            signature="C20:level:%s" % r[0])
+                ctx.violate("logging_level(%r) = %r at conversion number %d of this spelling in this process (earlier results: %r), documented: %r"
+                            % (s, r, nth, earlier.get(s, []), exp),
+                            {"value": s, "impl": r, "expected": exp, "conversion_number": nth, "earlier_results_for_this_value": list(earlier.get(s, []))},
+                            signature="C20:level:%s%s" % (r[0], "" if nth == 1 else ":repeated"))
             if a is not None:
                 m = ["ok", int(a[0][1][1])] if a[0][0] == "ok" else ["err", str(a[0][1])]
                 if m != r:
-                    ctx.disagree("level", s, r, m)
+                    ctx.disagree("level", {"value": s, "conversion_number": nth}, r, m)
+            earlier.setdefault(s, []).append(r)
+        _configured_levels(ctx, rng, tmp, earlier)
         # ---------------------------------------------------------------- logfile option matrix
         paths = ["STDOUT", "STDERR", os.path.join(tmp, "a.log")]
         combos = []
@@ -307,6 +412,36 @@ def run(ctx):
                         "gc.collect() is used to make dropped handlers unreachable"])
 
 
+def _ordinary_records_format(ctx, h, style, fmt, text, replay, where=""):
+    """the statement for a handler section accepted at load time with arbitrary-fields off: ordinary records format without
+    raising (an empty message, a short one, one logged with exception information, one created "before" the logging module was
+    loaded - relativeCreated negative: the clock was set back), and the template styles render what string.Template gives"""
+    try:
+        for rec2 in _more_records():
+            h.format(rec2)
+        rec = record()
+        out = h.format(rec)
+        if style in ("template", "safe-template"):
+            # reference rendering with string.Template semantics over the record's own fields
+            import string
+            d = dict(rec.__dict__)
+            d["message"] = rec.getMessage()
+            d["asctime"] = h.formatter.formatTime(rec, h.formatter.datefmt)
+            fmt = fmt or "${message}"       # an empty format means the style's default
+            try:
+                exp = string.Template(fmt.replace("\\n", "\n").replace("\\t", "\t")).safe_substitute(d) if style == "safe-template" \
+                    else string.Template(fmt.replace("\\n", "\n").replace("\\t", "\t")).substitute(d)
+            except Exception:
+                exp = None
+            if exp is not None and out != exp:
+                ctx.violate("%s format %r%s rendered %r, string.Template gives %r" % (style, fmt, where, out, exp),
+                            dict(replay, output=out, expected=exp), signature="C20:format:render:" + style)
+    except Exception as e:
+        ctx.violate("format %r (%s)%s accepted at load, but formatting an ordinary record raises %s: %s" % (fmt, style, where, type(e).__name__, str(e)[:100]),
+                    dict(replay, raised="%s: %s" % (type(e).__name__, str(e)[:200])),
+                    signature="C20:format:format-raises:%s:%s%s" % (style, type(e).__name__, _value_dependent_shape(style, fmt)))
+
+
 def _formats(ctx, rng, tmp):
     convs = ["s", "d", "r", "f", "x", "c", "5.2f", "-10s", "03d", "e", "i", "o", "%"]
     cases = []
@@ -433,34 +568,93 @@ def _formats(ctx, rng, tmp):
                             {"text": text, "style": style, "format": fmt}, signature="C20:format:factory-raises:%s:%s" % (style, type(e).__name__))
                 reset_logging([name])
                 continue
-            try:
-                h = logger.handlers[0]
-                # further ordinary records: an empty message, a short one, one logged with exception information, one created
-                # "before" the logging module was loaded (relativeCreated negative: the clock was set back)
-                for rec2 in _more_records():
-                    h.format(rec2)
-                rec = record()
-                out = h.format(rec)
-                if style in ("template", "safe-template"):
-                    # reference rendering with string.Template semantics over the record's own fields
-                    import string
-                    d = dict(rec.__dict__)
-                    d["message"] = rec.getMessage()
-                    d["asctime"] = h.formatter.formatTime(rec, h.formatter.datefmt)
-                    fmt = fmt or "${message}"       # an empty format means the style's default
-                    try:
-                        exp = string.Template(fmt.replace("\\n", "\n").replace("\\t", "\t")).safe_substitute(d) if style == "safe-template" \
-                            else string.Template(fmt.replace("\\n", "\n").replace("\\t", "\t")).substitute(d)
-                    except Exception:
-                        exp = None
-                    if exp is not None and out != exp:
-                        ctx.violate("%s format %r rendered %r, string.Template gives %r" % (style, fmt, out, exp),
-                                    {"text": text, "output": out, "expected": exp}, signature="C20:format:render:" + style)
-            except Exception as e:
-                ctx.violate("format %r (%s) accepted at load, but formatting an ordinary record raises %s" % (fmt, style, type(e).__name__),
-                            {"text": text, "style": style, "format": fmt},
-                            signature="C20:format:format-raises:%s:%s%s" % (style, type(e).__name__, _value_dependent_shape(style, fmt)))
+            if logger.handlers:
+                _ordinary_records_format(ctx, logger.handlers[0], style, fmt, text, {"text": text, "style": style, "format": fmt})
             reset_logging([name])
+    _format_histories(ctx, rng, cases)
+
+
+def _format_histories(ctx, rng, cases):
+    """the same style and format in SEVERAL handler sections of one process, some with arbitrary-fields on and some with it
+    off, in every order in which a section with arbitrary-fields off comes after one with it on (the stream above loads every
+    format once with arbitrary-fields off and then once with it on): as successive configuration loads, as several logfile
+    handlers of one logger section, or as the handlers of several logger sections of one configuration.  The formats are those
+    of the stream above plus formats that mix ordinary fields with fields ordinary records do not carry.  The statement is
+    the same for every section, whatever was loaded before it: if the configuration is accepted, every handler configured
+    with arbitrary-fields off formats ordinary records without raising (and the factory can build it)"""
+    extra = []
+    for fld in ("request_id", "custom1", "nosuchfield", "user", "Message"):
+        extra += [("classic", "%%(levelname)s [%%(%s)s] %%(message)s" % fld), ("classic", "%%(%s)-8s|%%(message)s" % fld),
+                  ("format", "{levelname} [{%s}] {message}" % fld), ("format", "{%s!r:>8} {message}" % fld),
+                  ("template", "${levelname} [${%s}] ${message}" % fld), ("template", "$%s $message" % fld),
+                  ("safe-template", "${levelname} [${%s}] ${message}" % fld)]
+    pool = extra + [c for c in cases if c[1] and c[1].strip() == c[1] and "\n" not in c[1] and not c[1].startswith(("<", "#"))]
+    if not ctx.thorough():
+        nonstd = [c for c in pool[len(extra):] if "nosuchfield" in c[1] or "custom1" in c[1]]
+        rest = [c for c in pool[len(extra):] if c not in nonstd]
+        pool = extra + rng.sample(nonstd, min(len(nonstd), 80)) + rng.sample(rest, min(len(rest), 80))
+    orders = [("on", "off"), ("on", "off", "off"), ("off", "on", "off"), ("on", "on", "off"), ("on", "default"), ("on", "off", "on")]
+    layouts = ["loads", "handlers-of-one-logger", "loggers-of-one-configuration"]
+    n_i = 0
+    for ci, (style, fmt) in enumerate(pool):
+        order = orders[ci % len(orders)] if ci < 2 * len(orders) else rng.choice(orders)
+        layout = layouts[ci % len(layouts)] if ci < 2 * len(layouts) else rng.choice(layouts)
+
+        def handler(arb):
+            return ["  <logfile>", "    path STDOUT", "    style " + style, "    format " + fmt.replace("$", "$$")] + \
+                   ([] if arb == "default" else ["    arbitrary-fields " + ("true" if arb == "on" else "false")]) + ["  </logfile>"]
+        # the configurations of this history: [(text, [(logger name, [arbitrary-fields setting of each handler])])]
+        configs = []
+        if layout == "loads":
+            for arb in order:
+                n_i += 1
+                nm = "zcv.c20.fh%d" % n_i
+                configs.append(("\n".join(["<logger>", "  name " + nm] + handler(arb) + ["</logger>"]) + "\n", [(nm, [arb])]))
+        elif layout == "handlers-of-one-logger":
+            n_i += 1
+            nm = "zcv.c20.fh%d" % n_i
+            configs.append(("\n".join(["<logger>", "  name " + nm] + [l for arb in order for l in handler(arb)] + ["</logger>"]) + "\n", [(nm, list(order))]))
+        else:
+            lines, lgs = [], []
+            for arb in order:
+                n_i += 1
+                nm = "zcv.c20.fh%d" % n_i
+                lines += ["<logger>", "  name " + nm] + handler(arb) + ["</logger>"]
+                lgs.append((nm, [arb]))
+            configs.append(("\n".join(lines) + "\n", lgs))
+        ctx.count("format-history:%s" % layout)
+        history = []
+        for text, lgs in configs:
+            r = load(text)
+            ctx.evaluations += 1
+            ctx.nontriv(("format-history", text))
+            history.append({"text": text, "verdict": "accepted" if r[0] == "ok" else "refused: " + str(r[1])})
+            ctx.count("format-history:load:%s" % ("accepted" if r[0] == "ok" else "refused"))
+            if r[0] != "ok":
+                continue
+            replay = {"style": style, "format": fmt, "layout": layout, "arbitrary_fields_of_the_sections_in_order": list(order),
+                      "loads_so_far_in_order": [dict(h_) for h_ in history], "text": text}
+            for (nm, arbs), fac in zip(lgs, r[1].loggers):
+                if all(a == "on" for a in arbs):
+                    continue        # nothing is stated about formats with arbitrary-fields on
+                try:
+                    logger = fac()
+                except Exception as e:
+                    ctx.violate("format %r (%s) accepted at load, but building the formatter raises %s" % (fmt, style, type(e).__name__),
+                                dict(replay, logger=nm), signature="C20:format:factory-raises:%s:%s" % (style, type(e).__name__))
+                    reset_logging([nm])
+                    continue
+                hs = list(logger.handlers)
+                if len(hs) != len(arbs):
+                    ctx.violate("logger with %d logfile sections got %d handlers" % (len(arbs), len(hs)), dict(replay, logger=nm), signature="C20:setup:handlers")
+                else:
+                    for j, (a, h) in enumerate(zip(arbs, hs)):
+                        if a != "on":
+                            ctx.count("format-history:handler-without-arbitrary-fields:formatted")
+                            _ordinary_records_format(ctx, h, style, fmt, text, dict(replay, logger=nm, handler_index=j),
+                                                     where=" in handler section %d of logger %s (arbitrary-fields %s; the sections with this format in this "
+                                                     "process, in order, have arbitrary-fields %s, as %s)" % (j, nm, a, "/".join(order[:max(len(history), len(arbs), len(lgs))]), layout))
+                reset_logging([nm])
 
 
 def _factory_reopen(ctx, load, tmp):
